@@ -21,6 +21,20 @@ Qed.
 Lemma starts_with_app : forall pre x, starts_with pre (pre ++ x) = true.
 Proof. intros; unfold starts_with; rewrite strip_prefix_app; reflexivity. Qed.
 
+(* the two strings differ at a position both have *)
+Fixpoint divergeb (a b : string) : bool :=
+  match a, b with
+  | String x a', String y b' => if Ascii.eqb x y then divergeb a' b' else true
+  | _, _ => false
+  end.
+
+Lemma diverge_no_prefix : forall a b x, divergeb a b = true -> starts_with a (b ++ x) = false.
+Proof.
+  intros a; induction a as [|c a IH]; intros [|d b] x H; cbn [divergeb] in H; try discriminate H.
+  unfold starts_with in *; cbn [append strip_prefix].
+  destruct (Ascii.eqb c d); [apply IH; exact H | reflexivity].
+Qed.
+
 Lemma assoc_str_none : forall (A : Type) (l : string) (t : list (string * A)),
   (forall k v, In (k, v) t -> k <> l) -> assoc_str l t = None.
 Proof.
@@ -367,6 +381,36 @@ Section Category.
     - intros b [Hb|[]]; subst b; tauto.
     - intros q v [].
   Qed.
+  (* lines starting with a given overview prefix occur only inside plain blocks *)
+  Definition prefix_const_okb (pre : string) : bool :=
+    negb (starts_with pre lines_marker) && negb (starts_with pre "") &&
+    match pre with String c _ => negb (Ascii.eqb c "-") | EmptyString => false end &&
+    forallb (fun q => forallb (fun l => negb (starts_with pre l)) (split_lines (sec q))) all.
+
+  Lemma shape_prefix_lines : forall pre bs items l, prefix_const_okb pre = true -> shape bs items ->
+    In l (doc_lines bs ++ [""])%list -> starts_with pre l = true ->
+    exists ls, In (BPlain ls) bs /\ In l ls.
+  Proof.
+    intros pre bs items l H [Hs1 _] Hin Hl; unfold prefix_const_okb in H.
+    apply andb_true_iff in H; destruct H as [H123 H4]; apply andb_true_iff in H123; destruct H123 as [H12 H3].
+    apply andb_true_iff in H12; destruct H12 as [H1 H2].
+    assert (Lm : l <> lines_marker) by (intro E; subst l; rewrite Hl in H1; discriminate H1).
+    assert (Lb : l <> "") by (intro E; subst l; rewrite Hl in H2; discriminate H2).
+    assert (Le : parse_entry l = None).
+    { destruct pre as [|c pre]; [discriminate H3|].
+      destruct l as [|c1 l]; [reflexivity|].
+      unfold starts_with in Hl; cbn [strip_prefix] in Hl.
+      destruct (Ascii.eqb c c1) eqn:E; [|discriminate Hl]; apply Ascii.eqb_eq in E; subst c1.
+      destruct l as [|c2 l]; [reflexivity|]; cbn [parse_entry].
+      destruct (Ascii.eqb c "-"); [discriminate H3 | reflexivity]. }
+    apply in_app_or in Hin; destruct Hin as [Hin|[E|[]]]; [|symmetry in E; contradiction].
+    apply (in_doc_lines_const P l bs Lm Lb Le) in Hin; destruct Hin as [b [Hb Hlb]].
+    destruct b as [ls|q t v]; [exists ls; split; assumption|].
+    exfalso; specialize (Hs1 _ Hb); destruct Hs1 as [Ht _]; subst t.
+    rewrite forallb_forall in H4; specialize (H4 q (all_complete q)).
+    rewrite forallb_forall in H4; specialize (H4 l Hlb); rewrite Hl in H4; discriminate H4.
+  Qed.
+
   Lemma shape_cons_plain : forall ls bs items,
     forallb (plain_ok P keys headings) ls = true -> (forall p, ~ In (key p) ls) ->
     shape bs items -> shape (BPlain ls :: bs) items.
